@@ -42,7 +42,7 @@ func c18Snapshot(s *state.State) string {
 func TestC18(t *testing.T) {
 	col := ev.New("C18", "rapid state machine over state.State: register stores of constant and symbolic values (incl. loads of the destination register itself and of other registers of the file) with "+
 		"value width <, =, > store width, register loads at any width, Apply of register stores and of memory stores "+
-		"with constant, foldable (constant sub-tree) and non-constant addresses. Model: key -> (expression, store width); "+
+		"with constant, foldable (constant sub-tree) and non-constant addresses (register + constant, register shifted by 1-63 bits, register NAND constant, memory load). Model: key -> (expression, store width); "+
 		"loaded expression evaluated by the math/big evaluator under 2 valuations must equal fit(fit(value,w_store),w_load). "+
 		"non-trivial = history with a load narrower or wider than the store width of a symbolic value and a refused "+
 		"memory store; distinct by history rendering")
